@@ -179,7 +179,12 @@ def check_binding(chk, rule, rel, fn, fname, call, sig, expected, construct, def
         txt = resolve(fn, a, defs) if a is not None else None
         got[p] = txt
         wants = want if isinstance(want, (set, frozenset, list, tuple)) else {want}
-        if txt not in wants:
+        alts = {txt}
+        if txt and '|' in txt:
+            # default idiom written inline: `d if x is None else x` is shown as x|d by resolve()
+            x_, d_ = txt.split('|', 1)
+            alts |= {'%sif%sisNoneelse%s' % (d_, x_, x_), '%sif%sisnotNoneelse%s' % (x_, x_, d_)}
+        if not (alts & set(wants)):
             ok = False
             detail += '; parameter %s receives %s, expected %s' % (p, txt, sorted(wants))
     chk.ob(rule, ok, rel, fname, construct, line=call.lineno, expected=expected, got=got, detail=detail.strip('; '),
@@ -645,7 +650,12 @@ def r08_python(chk):
     chk.floor('R08.7 default idioms', nd, 6)
     # kernel bindings
     fi = m.method('Panel', 'calc_fint')
-    calls = [c for c in pyflow.calls_in(fi) if isinstance(c.func, ast.Name) and c.func.id == 'calc_fint']
+    from .symval import Flow
+    _fl = Flow(fi)
+    _fin = _fl.run()
+    # the kernel is looked up by name (getattr(matrices_num, 'calc_fint', None)) and called through a local: whatever the local is called
+    calls = [c for c in pyflow.calls_in(fi) if isinstance(c.func, ast.Name) and
+             (c.func.id == 'calc_fint' or any("'calc_fint'" in v and 'getattr(' in v for v in _fin.get(c.func.id, ())))]
     chk.need(len(calls) == 1, 'Panel.calc_fint: kernel call vanished')
     for model, rel in NUM_MODELS.items():
         check_binding(chk, 'R08.7', PANEL, fi, 'Panel.calc_fint', calls[0], kernel_sig(rel, 'calc_fint'),
